@@ -1131,6 +1131,25 @@ def setattr_value(it, v, name, value):
             hook(it, cell, value)
         cell.writeable = bool(value)
         return True
+    if isinstance(v, Mat) and name == "data" and v.coo is not None and isinstance(value, (Arr, Vec)):
+        # M.data = new_values: the OBJECT M is changed (it now holds other values at the same coordinates); whoever
+        # else holds M - e.g. the caller whose matrix it is - sees the change: a store into M's container
+        from . import matmodel
+
+        hook = it.hooks.get("store")
+        if hook is not None:
+            class _Container:
+                region = getattr(v, "container_region", v.region)
+
+            hook(it, _Container, getattr(it, "cur_frame", None), getattr(it, "cur_stmt", None), "spmatrix.data = ...")
+        nnz, row, col, _old = v.coo
+        new = value if isinstance(value, Arr) else Arr.new(value)
+        m2 = matmodel.coo_from_triplets(it, new, row, col, (v.rows, v.cols), name=v.name, region=v.region, fmt=v.fmt)
+        v.coo, v.entry = m2.coo, m2.entry
+        for extra in ("onehot_cols", "selection"):
+            if hasattr(m2, extra):
+                setattr(v, extra, getattr(m2, extra))
+        return True
     return False
 
 
